@@ -231,6 +231,19 @@ func (a *SimAPI) getJob(name string) *execution.Job {
 	return obj.(*execution.Job)
 }
 
+func (a *SimAPI) listJobs() []*execution.Job {
+	obj, err := a.sc.clientsets.FurikoMock().Tracker().List(jobGVR, schema.GroupVersionKind{Group: "execution.furiko.io", Version: "v1alpha1", Kind: "Job"}, a.ns)
+	if err != nil {
+		panic(err)
+	}
+	var out []*execution.Job
+	for i := range obj.(*execution.JobList).Items {
+		out = append(out, obj.(*execution.JobList).Items[i].DeepCopy())
+	}
+	sort.Slice(out, func(i, j int) bool { return out[i].Name < out[j].Name })
+	return out
+}
+
 func (a *SimAPI) storeJob(j *execution.Job, create bool) {
 	a.rv++
 	j.ResourceVersion = fmt.Sprint(a.rv)
